@@ -110,13 +110,22 @@ def _file_for(ctx, kind, tool, small=False):
         chosen[name] = label
         if val is not None:
             rules[name] = val
-    if kind == 'plain':
+    tiny = small == 'tiny'
+    if tiny:
+        # all default sets together: the interplay of the sets is the
+        # subject, the value forms are reduced to the essentials
+        pick('p', 'role:p', allow=['absent', 'different', 'list'])
+        pick('q', 'role:q or role:x', allow=['absent', 'variant'])
+        pick('u', None, allow=['absent', 'list'])
+    elif kind == 'plain':
         pick('m', 'role:a or role:b and role:c',
              allow=['absent', 'default', 'regrouped', 'lookalike',
                     'listdefault'] if small
              else ['absent', 'default', 'variant', 'regrouped', 'reordered',
                    'lookalike', 'listdefault'])
-    if small:
+    if tiny:
+        pass
+    elif small:
         pick('p', 'role:p', allow=['absent', 'default', 'variant',
                                    'different', 'list', 'list-blank'])
         pick('q', 'role:q or role:x', allow=['absent', 'variant', 'dquoted',
@@ -380,7 +389,7 @@ def _cubes(tier, seed, fmts=None):
     for k in (KINDS if tier == 'quick' else KINDS + ['all']):
         # the full value-form menu with all default sets together exceeds
         # the cube budget: 'all' uses the small menu
-        small = tier == 'quick' or k == 'all'
+        small = 'tiny' if k == 'all' else tier == 'quick'
         if fmts:
             for f in fmts:
                 out.append({'kind': k, 'fmt': f, 'small': small})
@@ -389,18 +398,21 @@ def _cubes(tier, seed, fmts=None):
     return out
 
 
+_BUDGET = {'quick': 600, 'thorough': 3600}      # seconds per cube
 HARNESSES = {
-    'convert': {'fn': run_convert, 'cubes': lambda t, s: _cubes(t, s)},
+    'convert': {'fn': run_convert, 'cubes': lambda t, s: _cubes(t, s),
+                'budget_s': _BUDGET},
     'upgrade': {'fn': run_upgrade,
                 'cubes': lambda t, s: _cubes(t, s, ['yaml', 'json']) + [
                     dict(c, namespaces=2) for c in _cubes(t, s, ['yaml'])
-                    if c['kind'] in ('split', 'renamed', 'all')]},
+                    if c['kind'] in ('split', 'renamed', 'all')],
+                'budget_s': _BUDGET},
     'generate': {'fn': run_generate, 'cubes': lambda t, s: _cubes(t, s) + [
         dict(c, withdrawn=True) for c in _cubes(t, s)
-        if c['kind'] in ('plain', 'changed')]},
+        if c['kind'] in ('plain', 'changed')], 'budget_s': _BUDGET},
     'redundant': {'fn': run_redundant, 'cubes': lambda t, s: _cubes(t, s) + [
         dict(c, withdrawn=True) for c in _cubes(t, s)
-        if c['kind'] == 'plain']},
+        if c['kind'] == 'plain'], 'budget_s': _BUDGET},
 }
 REQUIRED_COVER = ['convert:ran', 'upgrade:ran', 'generate:ran',
                   'tools:long-lived-enforcer',
